@@ -719,6 +719,37 @@ func (r *vfxRig) setScript(sc *vfxScript) {
 	r.mu.Unlock()
 }
 
+// vfxMirrorJoinWait bounds the wait for the mirrored copy of a request (never a verdict).
+const vfxMirrorJoinWait = 30 * time.Millisecond
+
+// joinMirror: the mirrorPool sends its copy from a goroutine of its own, with the context of the
+// front request (the copy is cancelled when that request ends). A case must not leave goroutines
+// behind that interfere with the next request, so the rig waits until the copy has arrived at the
+// mirror server (it then owns a connection) or a short bound expires (about a tenth of the copies are
+// cancelled before they got a connection and never arrive; their goroutine has long returned by then). Without this, on a loaded machine a late copy that is
+// cancelled while it waits for an idle connection can be handed the connection on which the
+// answer to the next request has just arrived and tear it down (see proposed_known.jsonl of C03).
+func (r *vfxRig) joinMirror(q *vfxRequest, proxyRan bool) {
+	if r.cfg == nil || !r.cfg.Mirror {
+		return
+	}
+	carries := false
+	for _, kv := range q.Headers {
+		carries = carries || (strings.EqualFold(kv[0], vfxMirrorHeader) && kv[1] == "1")
+	}
+	if !carries {
+		return
+	}
+	bound := vfxMirrorJoinWait
+	if !proxyRan {
+		bound = 5 * time.Millisecond // rejected in front of the pipeline (no copy), or answered by a cache
+	}
+	deadline := time.Now().Add(bound)
+	for len(r.mirrored()) == 0 && time.Now().Before(deadline) {
+		time.Sleep(200 * time.Microsecond)
+	}
+}
+
 // mirrored returns the copies of the latest request that arrived under /vfmirror so far (the
 // mirrorPool works asynchronously: a copy may arrive later or, when the request context ends
 // first, never).
@@ -1078,6 +1109,7 @@ func (r *vfxRig) exchange(q *vfxRequest, sc *vfxScript) (resp *vfxResponse, seen
 		}
 		seen = r.received()
 		frontLog = r.hub.frontLog.take()
+		r.joinMirror(q, len(seen) > 0)
 		if attempt == 0 && resp.Status == 503 && len(seen) == 0 {
 			if perr := r.probeBackend(); perr != nil {
 				err = fmt.Errorf("environment: the loopback backend cannot be reached from this process: %v", perr)
